@@ -4,6 +4,8 @@
 package vunix
 
 import (
+	"time"
+
 	orig "golang.org/x/sys/unix"
 
 	"verif.local/shim/vnet"
@@ -41,14 +43,22 @@ func Poll(fds []orig.PollFd, timeout int) (int, error) {
 	if len(fds) == 0 || sock(int(fds[0].Fd)) == nil {
 		return orig.Poll(fds, timeout)
 	}
-	n := 0
-	for i := range fds {
-		s := sock(int(fds[i].Fd))
-		fds[i].Revents = 0
-		if s != nil && s.ErrQueueLen() > 0 {
-			fds[i].Revents = orig.POLLPRI | orig.POLLERR
-			n++
+	scan := func() int {
+		n := 0
+		for i := range fds {
+			s := sock(int(fds[i].Fd))
+			fds[i].Revents = 0
+			if s != nil && s.ErrQueueLen() > 0 {
+				fds[i].Revents = orig.POLLPRI | orig.POLLERR
+				n++
+			}
 		}
+		return n
+	}
+	n := scan()
+	if pb := vnet.Current().PollBlocks; n == 0 && timeout > 0 && pb != nil && pb(sock(int(fds[0].Fd))) {
+		time.Sleep(time.Duration(timeout) * time.Millisecond)
+		n = scan()
 	}
 	return n, nil
 }
